@@ -46,9 +46,43 @@ def _sel_count(con, side):
 
 def inject_all(cfg):
     """yields (defect_class, site, mutated cfg)"""
+    # an `idx` on the range of an array endpoint is ignored by floogen (element k takes slot k):
+    # inject into the equivalent description without it, so that range arithmetic here stays simple
+    cfg = copy.deepcopy(cfg)
+    for e in cfg["endpoints"]:
+        if "array" in e:
+            for r in _ranges(e):
+                r.pop("idx", None)
     aw = cfg["protocols"][0]["addr_width"]
     eps = cfg["endpoints"]
     sbr_sites = [(i, j) for i, e in enumerate(eps) if e.get("sbr_port_protocol") for j in range(len(_ranges(e)))]
+
+    # --- overlap with a window that reaches the top of the address space (rendered with end = 0)
+    top = 1 << aw
+    singles = [(i, j) for (i, j) in sbr_sites if "array" not in eps[i]]
+    if len(singles) >= 2:
+        (ti, tj), (ri, rj) = singles[0], singles[1]
+        rsz = _range_size(_ranges(eps[ri])[rj])
+        tsz = 4 * rsz
+        others_end = max((_range_start(x) + _range_size(x) * 64) for k2, e2 in enumerate(eps)
+                         if e2.get("sbr_port_protocol") for x in _ranges(e2))
+        if top - tsz > others_end:
+            c = copy.deepcopy(cfg)
+            tdesc = _ranges(eps[ti])[tj].get("desc")
+            tnew = {"start": top - tsz, "end": top}
+            if tdesc is not None:
+                tnew["desc"] = tdesc
+            _set_range(c["endpoints"][ti], tj, tnew)
+            rnew = dict(_ranges(eps[ri])[rj])
+            if "base" in rnew:
+                rnew["base"] = top - tsz + rsz
+                rnew.pop("idx", None)
+            else:
+                rnew["start"] = top - tsz + rsz
+                if "end" in rnew:
+                    rnew["end"] = top - tsz + 2 * rsz
+            _set_range(c["endpoints"][ri], rj, rnew)
+            yield "overlap", f"{eps[ri]['name']}[{rj}] inside {eps[ti]['name']}[{tj}] which ends at 2^{aw}", c
 
     # --- address ranges
     for (i, j) in sbr_sites:
@@ -211,6 +245,14 @@ def inject_all(cfg):
     c = copy.deepcopy(cfg)
     c["protocols"][0]["data_width"] = c["protocols"][0]["data_width"] * 2
     yield "protocol-width-mismatch", "data_width", c
+    if cfg["network_type"] == "axi" and len(cfg["protocols"]) > 1:
+        # the optional `type` label means nothing in an axi network: widths must still agree
+        for key in ("data_width", "user_width"):
+            c = copy.deepcopy(cfg)
+            for k, p in enumerate(c["protocols"]):
+                p["type"] = "narrow" if k == 0 else "wide"
+            c["protocols"][-1][key] = c["protocols"][-1][key] * 8 if key == "data_width" else c["protocols"][-1][key] + 1
+            yield "protocol-width-mismatch", f"{key} between labelled axi protocols", c
     c = copy.deepcopy(cfg)
     c["protocols"][-1]["user_width"] = c["protocols"][-1]["user_width"] + 1
     yield "protocol-width-mismatch", "user_width", c
